@@ -147,6 +147,8 @@ SQuery(e) ==
   /\ Req("C07", "inexact" \notin DOMAIN e)
   /\ SQueryOK(e)
   /\ Req("C10", e.dirty = << >>)
+  \* C10: the same answer as on a freshly built copy of the diagram (a brand-new builder)
+  /\ Req("C10", "fresh" \in DOMAIN e => ("panic" \notin DOMAIN e.fresh /\ e.fresh.val = e.val))
   /\ hashes' = (IF e.ev = "semhash" THEN SHashUpd(e) ELSE hashes)
   /\ UNCHANGED <<nvars, vt, flat, compress, semantic, node, nden, root, den, canon, contents>>
 =============================================================================
